@@ -92,6 +92,11 @@ impl<'a> MetaStoreUpdate<'a> {
         if proxy_address.split(':').count() != 2 {
             return Err(MetaStoreError::InvalidProxyAddress);
         }
+        // The two nodes of a proxy are told apart by their addresses
+        // (e.g. in the node map of UMCTL SETCLUSTER), so they must differ.
+        if nodes[0] == nodes[1] {
+            return Err(MetaStoreError::InvalidProxyAddress);
+        }
 
         let host = match (host, proxy_address.split(':').next()) {
             (Some(h), _) => h,
